@@ -87,7 +87,7 @@ fn gen_case(seed: u64, index: u64, tier: Tier) -> Case {
 			let warm = rng.urange(1, 4);
 			let on_main = rng.chance(0.3);
 			let mut g = crate::gen::G::new(&mut rng, crate::gen::Tiers { t1: 0.0, t2: 0.0 });
-			let mut effects: Vec<EffectSpec> = (0..g.rng.urange(1, 3)).map(|_| super::c11::fixed_effect(&mut g, 0)).collect();
+			let mut effects: Vec<EffectSpec> = (0..g.rng.urange(1, 3)).map(|_| super::c11::fixed_effect(&mut g, 0, 44_100)).collect();
 			// a delay of less than a frame (one frame of line at every rate) around a filter: the
 			// nested effect must hear about the new rate although the line keeps its length
 			if g.rng.chance(0.25) {
@@ -666,7 +666,7 @@ fn run_seconds(
 		for (at, ticks) in &m.clock_ticks_at {
 			// the handle shows the clock at the start of the callback, started at the first callback
 			let want = clock_tps * at;
-			if (ticks - want).abs() > clock_tps * (2.0 * slack) + 1e-6 {
+			if !((ticks - want).abs() <= clock_tps * (2.0 * slack) + 1e-6) {
 				res.fail(Violation::new("seconds", "clock-speed-depends-on-device-rate", format!("{name}: after {at:.4}s the clock ({clock_tps} ticks/s) shows {ticks:.4} ticks")));
 				break;
 			}
@@ -784,7 +784,7 @@ fn run_reverb(rates: &[u32; 2], ibs: usize) -> CaseResult {
 		}
 	}
 	let tol = 1.6 / rates[0] as f64 + 1.6 / rates[1] as f64;
-	if (spreads[0] - spreads[1]).abs() > tol {
+	if !((spreads[0] - spreads[1]).abs() <= tol) {
 		res.fail(Violation::new(
 			"seconds",
 			"reverb-timing-depends-on-device-rate",
